@@ -124,8 +124,9 @@ Print Assumptions C10_concat_logical_blank.
 (*       comparisons: text whose case mapping is modelled (cmp_modelled) *)
 (*       &:           integral float, or float_repr defined              *)
 (*       arithmetic:  text is ASCII and float() of it is not Unmodelled  *)
-(*   result_ok o v    comparisons: a logical; &: text; arithmetic: VInt, *)
-(*                    VFloat, #VALUE!, #DIV/0! or #NUM!                  *)
+(*   result_ok o v    comparisons: a logical; &: text; + - * / unary     *)
+(*                    minus: VInt, VFloat, #VALUE! or #DIV/0!            *)
+(*   arith_result v   VInt, VFloat, #VALUE!, #DIV/0! or #NUM! (for ^)    *)
 (*   text_num s       coerce_to_number(s, True) written out: TRUE/FALSE, *)
 (*                    int(), float() (py_int_base / parse_float)         *)
 (*   plain v          scalar, not an error value, not blank              *)
@@ -181,6 +182,12 @@ Theorem C10_total_pow_partial : forall l r, scalar l -> scalar r ->
     /\ (pow_modelled l1 r1 = false -> fixup l Pow r = Raise Unmodelled).
 Proof. exact pow_total. Qed.
 Print Assumptions C10_total_pow_partial.
+
+(* pow_modelled in plain terms: the float exponent is integral or the base negative *)
+Theorem C10_pow_domain : forall l1 q, number l1 ->
+  pow_modelled l1 (VFloat q) = integral q || q_ltb (qv l1) 0.
+Proof. exact pow_domain. Qed.
+Print Assumptions C10_pow_domain.
 
 (* (b) TEXT IN ARITHMETIC.  What the generated coerce_to_number does with text *)
 Theorem C10_text_coercion : forall s, non_ascii s = false ->
